@@ -17,6 +17,8 @@
 mod genread;
 #[path = "../c14_texts.rs"]
 mod texts;
+#[path = "../c14_large.rs"]
+mod large;
 use pvharness::gram::*;
 use pvharness::prog::hex;
 use pvharness::*;
@@ -86,33 +88,100 @@ fn leg<R: pest::RuleType>(res: Result<pest::iterators::Pairs<'_, R>, pest::error
 }
 
 #[derive(Default)]
-struct Counts { n: u64, nt: u64, diffs: u64, entry: u64, top: u64 }
+struct Counts { n: u64, nt: u64, diffs: u64, entry: u64, top: u64, settings: u64, leaks: u64, parts: u64 }
+
+/// pest's process-wide settings (call limit, error detail) as a parser state created NOW sees them: the `cl=..;en=..` part of
+/// ParserState::verif_dump on a state over the empty text.
+fn settings() -> String {
+    let mut out = String::from("unknown");
+    #[cfg(pest_parser_pest_verif)]
+    { let _ = pest::state::<pest_meta::parser::Rule, _>("", |s| { let d = s.verif_dump(); if let (Some(a), Some(b)) = (d.find(";cl="), d.find(";cs=")) { out = d[a + 1..b].to_string(); } Ok(s) }); }
+    out
+}
+
+/// Oracle on the implementation alone: a call of a public entry of the grammar front end (on an accepted or a rejected text) leaves
+/// pest's process-wide settings as they were.  `s0` = the settings before the call; an S line when they differ now.
+fn chk(s0: &mut String, entry: &str, rule: &str, t: &str, c: &mut Counts, w: &mut dyn Write) {
+    let s1 = settings();
+    c.settings += 1;
+    if s1 != *s0 {
+        c.leaks += 1;
+        writeln!(w, "S\t{}\t{}\t{}\t{}\t{}", entry, rule, hex(t), s0, s1).unwrap();
+        *s0 = s1;
+    }
+}
+
+/// canonical form of a list of errors (sorted: the order of validation errors is not part of any contract)
+fn errs_sig(es: Vec<pest::error::Error<pest_meta::parser::Rule>>) -> String {
+    let mut v: Vec<String> = es.into_iter().map(|e| { let loc = format!("{:?}", e.location); format!("{} @{}", obs_err(e), loc) }).collect();
+    v.sort();
+    format!("errors {}: {}", v.len(), v.join(" | "))
+}
 
 /// One (rule, text) case on the legs that live in this process.  The checked-in parser is run through the entry its users call,
 /// `pest_meta::parser::parse` (column 4 of the D line; the compiled fresh parsers append their columns downstream), and
 ///   * through the generated `PestParser::parse` that entry wraps: any difference (text, spans, error) is an E line;
 ///   * for the top rule through `pest_meta::parse_and_optimize`, the entry on top of it: it must end in the parse error pest_vm reports
-///     for the text when there is one, and in no parse error otherwise (validation errors are CustomErrors) - else an E line.
+///     for the text when there is one, and in no parse error otherwise (validation errors are CustomErrors) - else an E line; and it
+///     must end as its own steps do when they are called one after the other (parser::parse, validator::validate_pairs,
+///     parser::consume_rules, optimizer::optimize: the same list of errors, or the same number of rules) - else an E line.
+///     (`full`: also on accepted texts of more than 4000 bytes.)
 /// What the results say about the text itself (see `leg`) is appended to both columns when the forests / errors agree but that differs.
-fn observe(vm: &pest_vm::Vm, has_rule: bool, r: pest_meta::parser::Rule, name: &str, t: &str, c: &mut Counts, w: &mut dyn Write) {
+/// Around every call: pest's process-wide settings must be what they were (`chk`).
+fn observe(vm: &pest_vm::Vm, has_rule: bool, r: pest_meta::parser::Rule, name: &str, t: &str, full: bool, c: &mut Counts, w: &mut dyn Write) {
     use pest::Parser;
     let rn = |x: pest_meta::parser::Rule| format!("{:?}", x);
+    let mut s0 = settings();
     let (mut a, xa) = catch(|| leg(pest_meta::parser::parse(r, t), t, &rn)).unwrap_or_else(|m| (format!("Panic {}", m), String::new()));
+    chk(&mut s0, "pest_meta::parser::parse", name, t, c, w);
     let (mut b, xb) = if has_rule { catch(|| leg(vm.parse(name, t), t, &|x: &str| x.to_string())).unwrap_or_else(|m| (format!("Panic {}", m), String::new())) } else { ("NoSuchRule".to_string(), String::new()) };
+    chk(&mut s0, "pest_vm::Vm::parse", name, t, c, w);
     let (d, xd) = catch(|| leg(pest_meta::parser::PestParser::parse(r, t), t, &rn)).unwrap_or_else(|m| (format!("Panic {}", m), String::new()));
+    chk(&mut s0, "pest_meta::parser::PestParser::parse", name, t, c, w);
     c.n += 1; c.entry += 1;
     if (a.starts_with("Ok ") && a.len() > 3) || (a.starts_with("Err ") && !a.starts_with("Err 0 ")) { c.nt += 1; }
     if d != a || xd != xa {
         writeln!(w, "E\tpest_meta::parser::parse\t{}\t{}\t{} ## {}\t{} ## {}\tdirect", name, hex(t), a, xa, d, xd).unwrap();
     }
-    if name == "grammar_rules" && has_rule && (b.starts_with("Err ") || (b.starts_with("Ok ") && t.len() <= 4000)) {
+    if name == "grammar_rules" && has_rule && (full || b.starts_with("Err ") || (b.starts_with("Ok ") && t.len() <= 4000)) {
         c.top += 1;
-        let po = catch(|| match pest_meta::parse_and_optimize(t) {
-            Ok(_) => "no parse error".to_string(),
-            Err(es) => if es.len() == 1 && matches!(es[0].variant, pest::error::ErrorVariant::ParsingError { .. }) { obs_err(es.into_iter().next().unwrap()) } else { "no parse error".to_string() },
-        }).unwrap_or_else(|m| if b.starts_with("Ok ") { "no parse error".to_string() } else { format!("Panic {}", m) });
+        // the steps of the composite entry, called one after the other
+        let parts = match catch(|| pest_meta::parser::parse(r, t)) {
+            Err(m) => format!("Panic {}", m),
+            Ok(Err(e)) => errs_sig(vec![e]),
+            Ok(Ok(pairs)) => {
+                let p2 = pairs.clone();
+                let v = catch(|| pest_meta::validator::validate_pairs(p2).map(|d| d.len()));
+                chk(&mut s0, "pest_meta::validator::validate_pairs", name, t, c, w);
+                match v {
+                    Err(m) => format!("Panic {}", m),
+                    Ok(Err(es)) => errs_sig(es),
+                    Ok(Ok(_)) => {
+                        let x = catch(|| pest_meta::parser::consume_rules(pairs));
+                        chk(&mut s0, "pest_meta::parser::consume_rules", name, t, c, w);
+                        match x {
+                            Err(m) => format!("Panic {}", m),
+                            Ok(Err(es)) => errs_sig(es),
+                            Ok(Ok(ast)) => { let o = catch(|| pest_meta::optimizer::optimize(ast).len()); chk(&mut s0, "pest_meta::optimizer::optimize", name, t, c, w);
+                                match o { Ok(n) => format!("ok {} rules", n), Err(m) => format!("Panic {}", m) } }
+                        }
+                    }
+                }
+            }
+        };
+        let whole = catch(|| match pest_meta::parse_and_optimize(t) {
+            Ok((_, o)) => ("no parse error".to_string(), format!("ok {} rules", o.len())),
+            Err(es) => {
+                let po = if es.len() == 1 && matches!(es[0].variant, pest::error::ErrorVariant::ParsingError { .. }) { obs_err(es[0].clone()) } else { "no parse error".to_string() };
+                (po, errs_sig(es))
+            }
+        });
+        chk(&mut s0, "pest_meta::parse_and_optimize", name, t, c, w);
+        let (po, got) = match whole { Ok(x) => x, Err(m) => (if b.starts_with("Ok ") { "no parse error".to_string() } else { format!("Panic {}", m) }, format!("Panic {}", m)) };
         let want = if b.starts_with("Err ") { b.clone() } else { "no parse error".to_string() };
         if po != want { writeln!(w, "E\tpest_meta::parse_and_optimize\t{}\t{}\t{}\t{}\tvm", name, hex(t), po, want).unwrap(); }
+        c.parts += 1;
+        if got != parts { writeln!(w, "E\tpest_meta::parse_and_optimize\t{}\t{}\t{}\t{}\tparts", name, hex(t), got, parts).unwrap(); }
     }
     if a == b && xa != xb && has_rule { a = format!("{} ## {}", a, xa); b = format!("{} ## {}", b, xb); }
     if a != b { c.diffs += 1; }
@@ -249,6 +318,11 @@ fn pest_files(repo: &str) -> Vec<String> {
     out
 }
 
+/// lines `rule TAB hex of the text`
+fn read_seq(path: &str) -> Vec<(String, String)> {
+    std::fs::read_to_string(path).unwrap_or_default().lines().filter_map(|l| { let mut p = l.split('\t'); match (p.next(), p.next()) { (Some(r), Some(h)) if !r.is_empty() => Some((r.to_string(), pvharness::prog::unhex(h))), _ => None } }).collect()
+}
+
 fn main() {
     quiet_panics();
     let mode = arg(1);
@@ -315,7 +389,8 @@ fn main() {
             let mut valid: Vec<String> = vec![];
             for f in &files { if let Ok(t) = std::fs::read_to_string(f) { valid.push(t); } }
             let nfiles = valid.len();
-            for _ in 0..count / 4 { let g = gen_grammar(&mut rng, &GenCfg { stack: true, extras: false, counts: true, builtins: true }); valid.push(pest_grammar(&g)); }
+            // (the build with grammar-extras also writes node tags and PUSH_LITERAL into the generated grammars)
+            for _ in 0..count / 4 { let g = gen_grammar(&mut rng, &GenCfg { stack: true, extras: cfg!(feature = "extras"), counts: true, builtins: true }); valid.push(pest_grammar(&g)); }
             let fixed = arg(5) != "nofixed";   // the seed-independent texts are emitted by one of the parallel runs only
             for (i, t) in valid.iter().enumerate() { let rs = if i < nfiles { vec![top] } else { main_rules(&mut rng) }; if i >= nfiles || fixed { cases.push((t.clone(), rs)); } }
             // near-miss grammars
@@ -371,16 +446,19 @@ fn main() {
             }
             let n_entry_texts = cases.len() - before_entry;
             if arg(5) == "one" { cases = vec![(pvharness::prog::unhex(&arg(7)), all.iter().cloned().filter(|r| format!("{:?}", r) == arg(6)).collect())]; }
+            // `seq FILE`: the (rule, text) cases of FILE (lines `rule TAB hex`), in that order, in this one process (a replay with its history)
+            let seq = arg(5) == "seq";
+            if seq { cases = read_seq(&arg(6)).into_iter().map(|(rule, t)| (t, all.iter().cloned().filter(|r| format!("{:?}", r) == rule).collect())).collect(); }
             let mut c = Counts::default();
             for (t, rs) in &cases {
                 for r in rs {
                     let name = format!("{:?}", r);
                     if !names.contains(&name) && name != "EOI" { continue; }
-                    observe(&vm, true, *r, &name, t, &mut c, &mut w);
+                    observe(&vm, true, *r, &name, t, seq, &mut c, &mut w);
                 }
             }
-            writeln!(w, "#SUMMARY\tevaluations={}\tdistinct_nontrivial={}\tdirect_differences={}\tpest_files={}\tentry_vs_generated={}\tparse_and_optimize_vs_vm={}\tentry_char_texts={}",
-                c.n, c.nt, c.diffs, nfiles, c.entry, c.top, n_entry_texts).unwrap();
+            writeln!(w, "#SUMMARY\tevaluations={}\tdistinct_nontrivial={}\tdirect_differences={}\tpest_files={}\tentry_vs_generated={}\tparse_and_optimize_vs_vm={}\tentry_char_texts={}\tsettings_checks={}\tsettings_changes={}\tparse_and_optimize_vs_steps={}",
+                c.n, c.nt, c.diffs, nfiles, c.entry, c.top, n_entry_texts, c.settings, c.leaks, c.parts).unwrap();
         }
         "target" => {
             // targeted failing-input search for the rules named in arg(3) (comma separated; these are the rules a structural stage found to
@@ -422,7 +500,7 @@ fn main() {
                 let r = match all.iter().find(|r| format!("{:?}", r) == rule) { Some(r) => *r, None => return };
                 if t.len() > 2000 || !fed.insert((rule.to_string(), t.to_string())) { return; }
                 let mut c = counts.borrow_mut();
-                observe(&vm, names.iter().any(|x| x == rule), r, rule, t, &mut c, w);
+                observe(&vm, names.iter().any(|x| x == rule), r, rule, t, false, &mut c, w);
                 n.set(c.n);
             };
             let spell_rule = |name: &str, depth: u32, cap: usize, rng: &mut Rng| -> Vec<String> {
@@ -537,7 +615,131 @@ fn main() {
             }
             writeln!(w, "STAGES\t{}", stage_counts.iter().map(|(k, v)| format!("{}={}", k, v)).collect::<Vec<_>>().join("; ")).unwrap();
             let c = counts.borrow();
-            writeln!(w, "#SUMMARY\tevaluations={}\tdistinct_nontrivial={}\tdirect_differences={}\tpest_files=0\tentry_vs_generated={}\tparse_and_optimize_vs_vm={}", c.n, c.nt, c.diffs, c.entry, c.top).unwrap();
+            writeln!(w, "#SUMMARY\tevaluations={}\tdistinct_nontrivial={}\tdirect_differences={}\tpest_files=0\tentry_vs_generated={}\tparse_and_optimize_vs_vm={}\tsettings_checks={}\tsettings_changes={}\tparse_and_optimize_vs_steps={}",
+                c.n, c.nt, c.diffs, c.entry, c.top, c.settings, c.leaks, c.parts).unwrap();
+        }
+        "readx" => {
+            // the structural stage for THIS build's feature set (run for the build with grammar-extras): the token stream the in-tree generator
+            // returns for grammar.pest, read back, against the generator model for the rules THIS build's optimizer prints (F line only; the
+            // checked-in grammar.rs is generated without the feature and is compared behaviourally)
+            let x = cfg!(feature = "extras") as u8;
+            let text = std::fs::read_to_string(grammar_path(&repo)).expect("grammar.pest");
+            let ast = match catch(|| pest_meta::parser::parse(pest_meta::parser::Rule::grammar_rules, &text).ok().and_then(|p| pest_meta::parser::consume_rules(p).ok())) {
+                Ok(Some(a)) => a,
+                _ => { writeln!(w, "#SUMMARY\tevaluations=0\tdistinct_nontrivial=0").unwrap(); return; }   // reported by `read` / `diff`
+            };
+            let orig = sexp_grammar(&from_rules(&ast));
+            let osexp = sexp_grammar(&from_orules(&pest_meta::optimizer::optimize(ast)));
+            let none: Vec<String> = vec![];
+            let nor = |_: &str| -> Option<Vec<(char, char)>> { None };
+            let fresh = catch(|| fresh_tokens(&repo)).map_err(|m| format!("derive_parser panicked: {}", m))
+                .and_then(|ts| syn::parse2::<syn::File>(ts).map_err(|e| format!("fresh code is not a Rust file: {}", e))).and_then(|f| genread::read_parser(&f, &none, &nor));
+            match fresh { Ok(p) => writeln!(w, "F\t{}\t{}\t{}\t{}", x, orig, osexp, genread::show(&p)).unwrap(), Err(e) => writeln!(w, "TE\t{}\t{}\t{}\tfresh derive_parser output", x, osexp, esc(&e)).unwrap() }
+            writeln!(w, "#SUMMARY\tevaluations=1\tdistinct_nontrivial=1").unwrap();
+        }
+        "large" => {
+            // c14 large REPO SEED EPFILE PERCENT [LEAKFILE]
+            // The legs of the property share this process, and pest has process-wide settings.  (1) Every public entry of the grammar front
+            // end on accepted and rejected texts while the CALLER has a call limit and error detail set: the settings must survive (S lines;
+            // with the default settings this is checked around every call of every case of every mode).  (2) Large texts (sizes: PERCENT of
+            // 70 / 110 / 160 / 300 kB) fed AFTER rejected texts, small and large: every leg on every one of them, parse_and_optimize against
+            // its own steps.  An episode = (texts fed before, rule, text); EPFILE gets one line per episode, so that a disagreement can be
+            // replayed in a fresh process with its history (`diff .. seq FILE`).
+            // LEAKFILE (lines `rule TAB hex`): texts after which a call limit stays behind (found by the oracle above).  The search then
+            // looks for the size at which that limit starts to bite for the checked-in parser (bisection over the number of rules of a
+            // generated grammar, the texts of LEAKFILE fed before every probe) and compares the legs on grammars around that size.
+            let mut rng = Rng::new(arg_u64(3, 0) ^ 0x14_1a_26e5);
+            let epfile = arg(4);
+            let pct = arg_u64(5, 100) as usize;
+            let leakfile = arg(6);
+            let extras = cfg!(feature = "extras");
+            let gtext = std::fs::read_to_string(grammar_path(&repo)).expect("grammar.pest");
+            let opt = match catch(|| pest_meta::parse_and_optimize(&gtext)) { Ok(Ok((_, o))) => o, _ => { writeln!(w, "GE\tmeta/src/grammar.pest is rejected by pest_meta (the checked-in parser + validator)").unwrap(); writeln!(w, "#SUMMARY\tevaluations=1\tdistinct_nontrivial=0").unwrap(); return; } };
+            writeln!(w, "G\tmeta\t0\t{}\t-", sexp_grammar(&from_orules(&opt))).unwrap();
+            let names: Vec<String> = opt.iter().map(|r| r.name.clone()).collect();
+            let vm = pest_vm::Vm::new(opt);
+            let all = pest_meta::parser::Rule::all_rules();
+            let top = pest_meta::parser::Rule::grammar_rules;
+            let rule_of = |n: &str| all.iter().cloned().find(|r| format!("{:?}", r) == n);
+            let mut c = Counts::default();
+            let rejected = ["a = {", "a = { b }", "a = { \"x\" }\na = { \"y\" }"];
+            let mut episodes: Vec<(Vec<(String, String)>, String, String)> = vec![];
+            let mut bytes = 0usize;
+            if leakfile.is_empty() {
+                // (1)
+                let small: Vec<String> = ["a = { \"x\" }", "a = { a }", "WHITESPACE = _{ \" \" }\na = @{ 'a'..'z'+ ~ b? }\nb = { \"x\" ~ PUSH(a) ~ POP }"].iter().map(|s| s.to_string())
+                    .chain(rejected.iter().map(|s| s.to_string())).chain(std::iter::once(gtext.clone())).collect();
+                pest::set_call_limit(std::num::NonZeroUsize::new(50_000_000));
+                pest::set_error_detail(true);
+                let mut sink: Vec<u8> = vec![];
+                for t in &small { observe(&vm, true, top, "grammar_rules", t, true, &mut c, &mut sink); }
+                for t in ["a ~ b", "a ~", ""] { if let Some(r) = rule_of("expression") { observe(&vm, true, r, "expression", t, true, &mut c, &mut sink); } }
+                pest::set_call_limit(None);
+                pest::set_error_detail(false);
+                for l in String::from_utf8_lossy(&sink).lines() { if !l.starts_with("D\t") { writeln!(w, "{}", l).unwrap(); } }
+                // (2)
+                let kb = |k: usize| k * 1024 * pct / 100;
+                let mut files: Vec<Vec<GRule>> = vec![];
+                for f in pest_files(&repo) {
+                    if let Ok(t) = std::fs::read_to_string(&f) {
+                        if let Ok(Some(a)) = catch(|| pest_meta::parser::parse(top, &t).ok().and_then(|p| pest_meta::parser::consume_rules(p).ok())) { files.push(from_rules(&a)); }
+                    }
+                }
+                let t0 = large::generated(&mut rng, extras, kb(70));
+                let t1 = large::shipped_renamed(&files, kb(110));
+                let t2 = large::repeated(&gtext, kb(160));
+                let t3 = large::generated(&mut rng, extras, kb(300));
+                let x = large::long_expression(&mut rng, extras, kb(90));
+                let top_n = "grammar_rules".to_string();
+                let pre = |t: &str| vec![(top_n.clone(), t.to_string())];
+                episodes.push((vec![], top_n.clone(), t0.clone()));
+                episodes.push((pre(rejected[0]), top_n.clone(), t1.clone()));
+                episodes.push((pre(rejected[1]), top_n.clone(), t2));
+                episodes.push((pre(&large::cut(&t1, t1.len() * 7 / 10)), top_n.clone(), t3));
+                episodes.push((pre(rejected[2]), "expression".to_string(), x));
+                episodes.push((pre(&large::damaged(&t0, t0.len() / 2, "}")), top_n.clone(), t0));
+            } else {
+                let pre = read_seq(&leakfile);
+                let mut sink: Vec<u8> = vec![];
+                let mut poison = |c: &mut Counts, sink: &mut Vec<u8>| { for (pr, pt) in &pre { if let Some(r) = rule_of(pr) { observe(&vm, names.contains(pr), r, pr, pt, true, c, sink); } } sink.clear(); };
+                poison(&mut c, &mut sink);
+                let st = settings();
+                let limit: Option<usize> = st.find("cl=Some((").and_then(|k| st[k..].find(", ").map(|j| k + j + 2)).and_then(|k| st[k..].split(')').next().and_then(|x| x.trim().parse().ok()));
+                match limit {
+                    None => writeln!(w, "LEAKSEARCH\tno call limit is set after the texts given (settings: {})", st).unwrap(),
+                    Some(l) => {
+                        let maxbytes = (l / 6).clamp(4000, 1_500_000);
+                        let big = large::generated(&mut rng, extras, maxbytes);
+                        let lines: Vec<&str> = big.lines().collect();
+                        let mut bites = |n: usize, c: &mut Counts, sink: &mut Vec<u8>| -> bool {
+                            poison(c, sink);
+                            let t = large::first_rules(&lines, n);
+                            matches!(catch(|| pest_meta::parser::parse(top, &t).map(|_| ())), Ok(Err(e)) if matches!(e.variant, pest::error::ErrorVariant::CustomError { .. }))
+                        };
+                        if !bites(lines.len(), &mut c, &mut sink) {
+                            writeln!(w, "LEAKSEARCH\tcall limit {} left behind; the checked-in parser still accepts a generated grammar of {} bytes under it (no larger text tried)", l, big.len()).unwrap();
+                        } else {
+                            let (mut lo, mut hi) = (0usize, lines.len());
+                            while hi - lo > 1 { let mid = (lo + hi) / 2; if bites(mid, &mut c, &mut sink) { hi = mid; } else { lo = mid; } }
+                            let at = large::first_rules(&lines, hi).len();
+                            writeln!(w, "LEAKSEARCH\tcall limit {} left behind; it stops the checked-in parser on generated grammars from {} lines / {} bytes on; legs compared on grammars of 80 .. 120 % of that size, the leaking texts fed before each", l, hi, at).unwrap();
+                            let mut ns: Vec<usize> = [80, 90, 95, 98, 100, 105, 120].iter().map(|p| (hi * p / 100).max(1).min(lines.len())).collect();
+                            ns.push(hi.saturating_sub(1).max(1));
+                            ns.sort(); ns.dedup();
+                            for n in ns { episodes.push((pre.clone(), "grammar_rules".to_string(), large::first_rules(&lines, n))); }
+                        }
+                    }
+                }
+            }
+            let mut ep = String::new();
+            for (pre, rule, t) in &episodes {
+                for (pr, pt) in pre { if let Some(r) = rule_of(pr) { bytes += pt.len(); observe(&vm, names.contains(pr), r, pr, pt, true, &mut c, &mut w); } }
+                if let Some(r) = rule_of(rule) { bytes += t.len(); observe(&vm, names.contains(rule), r, rule, t, true, &mut c, &mut w); }
+                ep.push_str(&format!("{}\t{}\t{}\n", rule, hex(t), if pre.is_empty() { "-".to_string() } else { pre.iter().map(|(a, b)| format!("{}:{}", a, hex(b))).collect::<Vec<_>>().join(",") }));
+            }
+            if !epfile.is_empty() && epfile != "-" { let _ = std::fs::write(&epfile, ep); }
+            writeln!(w, "#SUMMARY\tevaluations={}\tdistinct_nontrivial={}\tdirect_differences={}\tpest_files=0\tentry_vs_generated={}\tparse_and_optimize_vs_vm={}\tsettings_checks={}\tsettings_changes={}\tparse_and_optimize_vs_steps={}\tlarge_episodes={}\tlarge_bytes={}",
+                c.n, c.nt, c.diffs, c.entry, c.top, c.settings, c.leaks, c.parts, episodes.len(), bytes).unwrap();
         }
         "freshgen" => {
             let derived = match catch(|| fresh_tokens(&repo)) { Ok(t) => t, Err(m) => { eprintln!("derive_parser panicked: {}", m); std::process::exit(3); } };
@@ -549,6 +751,6 @@ fn main() {
             writeln!(w, "// GENERATED by `c14 freshsrc`\n#![allow(warnings)]\nuse pest::Parser;\n#[derive(pest_derive::Parser)]\n#[grammar = {:?}]\npub struct Fresh;", grammar_path(&repo)).unwrap();
             writeln!(w, "{}", include_str!("../c14_fresh_main.rs.in")).unwrap();
         }
-        _ => { eprintln!("usage: c14 regen|read|diff|target|freshsrc|freshgen REPO [..]"); std::process::exit(2); }
+        _ => { eprintln!("usage: c14 regen|read|readx|diff|large|target|freshsrc|freshgen REPO [..]"); std::process::exit(2); }
     }
 }
